@@ -122,8 +122,21 @@ impl<T: Dump> Dump for Option<T> {
     fn dump(&self) -> Doc {
         match self {
             None => Doc::Null,
-            Some(x) => x.dump(),
+            // a present content that itself dumps as null (`Some(None)`, `Some(())`, ...) must not
+            // look like an absent one
+            Some(x) => match x.dump() {
+                Doc::Null => some_null(),
+                d => d,
+            },
         }
+    }
+}
+pub fn some_null() -> Doc {
+    Doc::Obj(vec![("$some".to_string(), Doc::Null)])
+}
+impl<T> Dump for std::marker::PhantomData<T> {
+    fn dump(&self) -> Doc {
+        Doc::Null
     }
 }
 impl<T: Dump> Dump for Box<T> {
@@ -302,6 +315,42 @@ pub fn validate_sum<T: Dump>(t: T, loc: ValuePointerRef) -> Result<T, ValErr> {
     }
 }
 
+/// `validate` function whose error type is the container's own: same rule as `validate_sum`;
+/// the error is built with `E::error` as user code must (flagged, see `custom_missing`).
+pub fn validate_sum_same<T: Dump, E: DeserializeError>(t: T, loc: ValuePointerRef) -> Result<T, E> {
+    let d = t.dump();
+    let sum = d.int_sum();
+    let ok = sum % 3 != 0;
+    log(Event::UserFn(UserCall::Validate { value: d, loc: loc_from_ref(loc), ok }));
+    if ok {
+        Ok(t)
+    } else {
+        enter_user_fn();
+        let e = take_cf_content(E::error::<Infallible>(None, ErrorKind::Unexpected { msg: format!("validate-same:{sum}") }, loc));
+        leave_user_fn();
+        Err(e)
+    }
+}
+
+/// Container-level `try_from` whose error type is the container's own (the function is not given
+/// a location: it reports at the origin).
+pub fn conv_container_try_same<E: DeserializeError>(item: usize, by_ref: bool, d: &Doc) -> Result<Doc, E> {
+    let ok = d.int_sum() % 2 == 0;
+    log(Event::UserFn(UserCall::ContainerConv { item, by_ref, arg: d.clone(), ok }));
+    if ok {
+        Ok(Doc::Obj(vec![("try_from".to_string(), d.clone())]))
+    } else {
+        enter_user_fn();
+        let e = take_cf_content(E::error::<Infallible>(
+            None,
+            ErrorKind::Unexpected { msg: format!("conv-same:c{item}_fn") },
+            ValuePointerRef::Origin,
+        ));
+        leave_user_fn();
+        Err(e)
+    }
+}
+
 /// `missing_field_error` function. Builds its error with `E::error` as user
 /// code must; the answer of that call is discarded here (by user code, not by
 /// deserr), so it is flagged and does not consume a script position.
@@ -338,4 +387,21 @@ pub fn custom_unknown<E: DeserializeError>(key: &str, accepted: &[&str], loc: Va
 }
 pub fn custom_unknown_a(key: &str, accepted: &[&str], loc: ValuePointerRef) -> RecA {
     custom_unknown::<RecA>(key, accepted, loc)
+}
+
+/// `missing_field_error` function returning a *foreign* error: the derive hands it to the
+/// container's error type through `MergeWithError<ConvErr>` and obeys that answer.
+pub fn custom_missing_f(key: &str, loc: ValuePointerRef) -> ConvErr {
+    log(Event::UserFn(UserCall::CustomMissing { key: key.to_string(), loc: loc_from_ref(loc) }));
+    ConvErr { fn_name: "custom_missing_f".to_string(), arg: Doc::Str(key.to_string()) }
+}
+
+/// `deny_unknown_fields = fn` function returning a foreign error.
+pub fn custom_unknown_f(key: &str, accepted: &[&str], loc: ValuePointerRef) -> ConvErr {
+    log(Event::UserFn(UserCall::CustomUnknown {
+        key: key.to_string(),
+        accepted: accepted.iter().map(|s| s.to_string()).collect(),
+        loc: loc_from_ref(loc),
+    }));
+    ConvErr { fn_name: "custom_unknown_f".to_string(), arg: Doc::Str(key.to_string()) }
 }
